@@ -527,7 +527,7 @@ class Triangle(abc.Set):
     @cached_property
     def is_incremental(self) -> bool:
         """Is the traingle incremental?"""
-        return isinstance(self.cells[0], IncrementalCell)
+        return bool(self.cells) and isinstance(self.cells[0], IncrementalCell)
 
     @cached_property
     def is_multi_slice(self) -> bool:
